@@ -13,7 +13,8 @@ HAS_B = os.path.exists(os.path.join(_HERE, "..", "harness", "c13b.go"))
 
 RULE = ("per importer (ch.swisscard2, ch.viac, ch.cumulus, ch.postfinance, ch.swisscard, ch.supercard) generated statements "
         "in the bank's format: 0-40 rows in either date order, dates across month/year ends and leap days, debits and "
-        "credits, amounts with and without thousands separators where the format has them, several currencies where the "
+        "credits, amounts with and without thousands separators where the format has them (plus the odd forms "
+        "decimal.NewFromString accepts: +5, .5, 5., 1e2, 007), Cumulus payment/rounding/FX-comment rows, several currencies where the "
         "format has a currency column/header, free text with double quotes, semicolons, commas, Unicode, NBSP, leading/"
         "trailing blanks, backslashes, very long text and newlines inside quoted CSV fields; `knut import <cmd> -a <account> "
         "FILE` on each.  The model (Model/Imp/*.v run on the records that encoding/csv resp. encoding/json delivered, dumped "
@@ -22,7 +23,7 @@ RULE = ("per importer (ch.swisscard2, ch.viac, ch.cumulus, ch.postfinance, ch.sw
         "byte-identically; (b) the transactions parsed from stdout equal, as a multiset of (date, effect on the import "
         "account, currency), the booking rows the generator wrote down before rendering the file; line structure header/"
         "one posting/blank.  A second stream damages one row (impossible date, other date format, bad amount, wrong column "
-        "count, bad currency) or the account flag: exit 1, empty stdout, no panic is required.  Non-trivial: a well-formed "
+        "count, bad currency) or the account flag (invalid, empty, omitted): exit 1, empty stdout, no panic is required.  Non-trivial: a well-formed "
         "statement with at least 3 rows; distinct by input.")
 TRUSTED_BASE = [
     "Coq 8.16.1 kernel",
